@@ -1,6 +1,6 @@
 (* C09 - property theorems only. *)
 From HV Require Import Prelude Stats StatsR C15_Model C15_Check C15_Proofs C09_Model C09_Check C09_Proofs.
-From HV Require Import C09_ProofsModel C09_ProofsStd C09_ProofsFloat.
+From HV Require Import C09_ProofsModel C09_ProofsStd C09_ProofsFloat C09_ProofsCli.
 From Coq Require Import Reals Qreals Qround SpecFloat.
 Open Scope Z_scope.
 
@@ -328,6 +328,93 @@ Theorem C09_pheno_cc_sound : forall c o r K, r_prev c = Some K -> pheno_ok false
          ci = true -> cj = false -> (lj <= li + si + sj)%Q.
 Proof. exact pheno_cc_sound. Qed.
 Print Assumptions C09_pheno_cc_sound.
+
+(* ------------------------------------------------------------------------------------
+   The property is about `simphenotype`, the COMMAND: from the options the user wrote to the
+   arguments PhenoSimulator.run computes the noise variance from
+   ------------------------------------------------------------------------------------ *)
+
+(* the command (C09_Model.cli_defaults) passes every option through; absent ones get the declared
+   defaults: one replication, normalised genotypes, and None for everything else *)
+Theorem C09_cli_defaults_spec : forall (F : Type) (o : cli_opts F),
+  let a := cli_defaults o in
+  sa_h2 a = co_h2 o /\ sa_env a = co_env o /\ sa_prev a = co_prev o
+  /\ sa_seed a = co_seed o /\ sa_chunk a = co_chunk o
+  /\ sa_reps a = match co_reps o with Some r => r | None => 1 end
+  /\ sa_norm a = match co_norm o with Some false => false | _ => true end.
+Proof. exact cli_defaults_spec. Qed.
+Print Assumptions C09_cli_defaults_spec.
+
+(* the documented noise formula applied to the USER's options is noise_var (what run computes)
+   of the arguments the command passes, for all betas and variances of the genetic component *)
+Theorem C09_cli_noise_documented : forall (o : cli_opts Q) betas v,
+  (noise_var betas (sa_h2 (cli_defaults o)) (sa_env (cli_defaults o)) v
+   == documented_noise betas (co_h2 o) (co_env o) v)%Q.
+Proof. exact cli_noise_documented. Qed.
+Print Assumptions C09_cli_noise_documented.
+
+(* ... and every command with that property hands None / None to run when --heritability and
+   --environment are both absent (whatever the other options, --no-normalize included) *)
+Theorem C09_cli_absent_must_stay_absent : forall f : cli_opts Q -> sim_args Q,
+  (forall o betas v, (0 <= v)%Q ->
+     (noise_var betas (sa_h2 (f o)) (sa_env (f o)) v == documented_noise betas (co_h2 o) (co_env o) v)%Q) ->
+  forall o, co_h2 o = None -> co_env o = None -> sa_h2 (f o) = None /\ sa_env (f o) = None.
+Proof. exact cli_absent_must_stay_absent. Qed.
+Print Assumptions C09_cli_absent_must_stay_absent.
+
+Example C09_cli_absent_must_stay_absent_inhabited :
+  forall o betas v, (0 <= v)%Q ->
+    (noise_var betas (sa_h2 (cli_defaults o)) (sa_env (cli_defaults o)) v
+     == documented_noise betas (co_h2 o) (co_env o) v)%Q.
+Proof. exact cli_absent_must_stay_absent_inhabited. Qed.
+Print Assumptions C09_cli_absent_must_stay_absent_inhabited.
+
+(* "absent heritability becomes 0.5 (the default shown in the help) under --no-normalize":
+   `--no-normalize` alone, beta = 1/2, raw dosages with variance 4: documented 3/4, computed 4 *)
+Example C09_cli_h2_filled_refuted :
+  let a := cli_defaults_h2_filled (1 # 2)%Q no_normalize_only in
+  sa_h2 a = Some (1 # 2)%Q
+  /\ (documented_noise [(1 # 2)%Q] (co_h2 no_normalize_only) (co_env no_normalize_only) 4 == 3 # 4)%Q
+  /\ (noise_var [(1 # 2)%Q] (sa_h2 a) (sa_env a) 4 == 4)%Q
+  /\ ~ (noise_var [(1 # 2)%Q] (sa_h2 a) (sa_env a) 4
+        == documented_noise [(1 # 2)%Q] (co_h2 no_normalize_only) (co_env no_normalize_only) 4)%Q.
+Proof. exact cli_h2_filled_refuted. Qed.
+Print Assumptions C09_cli_h2_filled_refuted.
+
+(* holds on a command-line case (built by mkr_cli from the options the user wrote), in the domain,
+   on an answer: as many replicates as replications asked for (1 when -r is absent), genotypes
+   standardised unless --no-normalize was written, and every replicate's draw has the variance
+   documented for the user's --heritability / --environment - absent meaning absent *)
+Theorem C09_holds_cli_sound : forall gids gt eff cl refuse o,
+  let c := mkr_cli gids gt eff cl refuse (Ok o) in
+  in_domain c = true -> holds_run c = true ->
+  cli_rejects cl = false
+  /\ Z.of_nat (length (o_reps o)) = user_reps (cl_opts cl)
+  /\ (user_norm (cl_opts cl) = true -> z_spec_ok c o = true /\ exists z, o_z o = Some z)
+  /\ forall r, In r (o_reps o) ->
+       (0 <= f2q0 (rp_scale r))%Q
+       /\ (Qabs (qsq (f2q0 (rp_scale r))
+                 - documented_noise (betas_of c) (oq (co_h2 (cl_opts cl))) (oq (co_env (cl_opts cl))) (gvar o))
+           <= tol9 * noise_scale (betas_of c) (oq (co_h2 (cl_opts cl))) (oq (co_env (cl_opts cl))) (gvar o))%Q
+       /\ pheno_ok false c o r = true.
+Proof. exact holds_cli_sound. Qed.
+Print Assumptions C09_holds_cli_sound.
+
+(* R replications yield R columns: holds demands one draw, one column and one written header
+   name per replication asked for (e2e cases; `run` is called by the harness itself) *)
+Theorem C09_holds_reps_sound : forall c o R, in_domain c = true -> r_obs c = Ok o -> holds_run c = true ->
+  r_reps c = Some R ->
+  Z.of_nat (length (o_reps o)) = R /\ length (o_names o) = length (o_reps o) /\ length (o_header o) = length (o_reps o).
+Proof. exact holds_reps_sound. Qed.
+Print Assumptions C09_holds_reps_sound.
+
+(* agree on a command-line case the command accepts: simulate_pt was called with cli_defaults of the options *)
+Theorem C09_cli_agree_sound : forall c cl, r_cli c = Some cl -> cli_rejects cl = false -> cli_agree c = true ->
+  exists a, cl_args cl = Some a /\ args_same a (cli_defaults (cl_opts cl)) = true
+    /\ sa_reps a = user_reps (cl_opts cl) /\ sa_norm a = user_norm (cl_opts cl)
+    /\ (sa_h2 a = None <-> co_h2 (cl_opts cl) = None) /\ (sa_env a = None <-> co_env (cl_opts cl) = None).
+Proof. exact cli_agree_sound. Qed.
+Print Assumptions C09_cli_agree_sound.
 
 (* ------------------------------------------------------------------------------------
    From K to the count (relative to the standard library's specification of the primitive
